@@ -169,16 +169,17 @@ func (wf *WarcFields) AddId(name, value string) {
 func (wf *WarcFields) Set(name string, value string) {
 	name, _ = normalizeName(name)
 	isSet := false
-	for idx, nv := range *wf {
-		if nv.Name == name {
-			if isSet {
-				*wf = slices.Delete(*wf, idx, idx+1)
-			} else {
-				nv.Value = value
-				isSet = true
-			}
+	*wf = slices.DeleteFunc(*wf, func(nv *nameValue) bool {
+		if nv.Name != name {
+			return false
 		}
-	}
+		if isSet {
+			return true
+		}
+		nv.Value = value
+		isSet = true
+		return false
+	})
 	if !isSet {
 		*wf = append(*wf, &nameValue{Name: name, Value: value})
 	}
